@@ -251,6 +251,27 @@ class Walk(StageHarness):
         return viol, obs
 
 
+class WalkTwice(Walk):
+    """Two parallel walks in one process, one after the other (state surviving a walk must not affect
+    the next one): the first over a sparse filtered pyramid, the second is the monitored one."""
+
+    stage = "walk_after_walk"
+
+    def fresh(self):
+        main2, mon, root = Walk.fresh(self)
+        first = make_pyramid("filtered", self.first_depth, self.first_accepted, None, None)
+        W = self.W
+
+        def noop(pos):
+            return None
+
+        def main():
+            first.walk(noop, parallel=W)
+            main2()
+
+        return main, mon, root
+
+
 class Transform(StageHarness):
     stage = "transform"
 
@@ -268,6 +289,8 @@ class Transform(StageHarness):
         def fn(mon, buf, pos, pio_in, pio_out):
             if buf != ["buf"]:
                 mon.flag("bad-buffer", "do_one called with buffer %r" % (buf,))
+            if (pio_in, pio_out) != (("INPUT-PYRAMID",), ("OUTPUT-PYRAMID",)):
+                mon.flag("wrong-pyramid-arguments", "do_one called with (pio_in, pio_out) = %r" % ((pio_in, pio_out),))
             h._maybe_fail(pos)
             mon.deliver(tuple(pos))
 
@@ -280,9 +303,9 @@ class Transform(StageHarness):
 
         def main():
             if W == 1:
-                transform._transform_parallel(None, None, depth, make_buf, do_one, False, 1)
+                transform._transform_parallel(("INPUT-PYRAMID",), ("OUTPUT-PYRAMID",), depth, make_buf, do_one, False, 1)
             else:
-                transform._do_a_transform(None, depth, make_buf, do_one, parallel=W)
+                transform._do_a_transform(("INPUT-PYRAMID",), depth, make_buf, do_one, pio_out=("OUTPUT-PYRAMID",), parallel=W)
 
         return main, mon, None
 
@@ -560,7 +583,7 @@ def register(cls):
     return cls
 
 
-for _c in (VisitLeaves, Walk, Transform, MultiTan, MultiWcs):
+for _c in (VisitLeaves, Walk, WalkTwice, Transform, MultiTan, MultiWcs):
     register(_c)
 
 
